@@ -126,16 +126,16 @@ PROPS = {
         explanation='Verus: postcondition of current_op against a spec table + lemmas comparing the table with the specification order.',
     ),
     'C12': dict(
-        units=['lex', 'parser', 'synx'],
+        units=['lex', 'parser', 'synx', 'sym'],
         decided=[
             'lexical diagnostics: token index < number of tokens, ranges start[i]..start[i+1] ordered, in range, on token (= char) boundaries',
             'an ERROR node is only ever completed after an error event has been recorded (precondition of Marker::complete at every call site of the grammar), recorded errors are never lost',
+            'semantic diagnostics (unit SYM, semantic_error.rs): SemanticErrorList::insert appends exactly one diagnostic attached to the syntax node of the AST node it was given, and SemanticError::range is the text range of that node',
             'the conversion of lexical diagnostics to syntax errors (parsing.rs): every range has start <= end <= length of the text, TextRange::new / TextSize::try_from never fail (unit SYNX)',
         ],
         not_decided=[
             'parser diagnostic offsets through Builder (SHORT unit)',
             'escape-validation offsets, ERROR *tokens* without a diagnostic (lexer Unknown -> ERROR kind)',
-            'semantic diagnostic ranges (SemanticError::range is a rowan node range by construction: one-line accessor, not modelled)',
             '"a diagnostic-free parse contains no error node" as a whole-tree statement',
         ],
         explanation='Verus.',
